@@ -10,6 +10,7 @@ import (
 	"encoding/json"
 	"flag"
 	"fmt"
+	"go/ast"
 	"go/parser"
 	"go/token"
 	"os"
@@ -29,6 +30,10 @@ type rule struct {
 	// ordered lists, per file, the map expressions whose `range` statements
 	// are rewritten to scheduler-independent iteration (sync.Ordered).
 	ordered map[string][]string
+	// yields lists the files (or "*") that get a cooperative scheduling point
+	// (vsync.Y) at every function entry and loop iteration: the simulator's
+	// stand-in for preemption between statements in code that takes no locks.
+	yields []string
 }
 
 var rules = []rule{
@@ -38,20 +43,24 @@ var rules = []rule{
 		"golang.org/x/net/ipv6":        {fac + "vipv6", "ipv6"},
 		"github.com/panjf2000/gnet/v2": {fac + "vgnet", "gnet"},
 		"github.com/IrineSistiana/mosproxy/internal/udpcmsg": {fac + "vudpcmsg", "udpcmsg"},
-	}, map[string][]string{"router.go": {"r.upstreams"}}},
+	}, map[string][]string{"router.go": {"r.upstreams"}}, []string{"router.go", "utils.go"}},
 	{"internal/upstream", map[string][2]string{
 		"net": {fac + "vnet", "net"},
-	}, nil},
+	}, nil, nil},
 	{"internal/upstream/transport", map[string][2]string{
 		"sync": {fac + "vsync", "sync"},
-	}, map[string][]string{"reuse_transport.go": {"t.idleConns", "t.conns"}}},
+	}, map[string][]string{"reuse_transport.go": {"t.idleConns", "t.conns"}}, nil},
 	{"internal/dnsmsg", map[string][2]string{
 		"sync": {fac + "vsync", "sync"},
-	}, nil},
+	}, nil, nil},
+	{"internal/domain_matcher", nil, nil, []string{"*"}},
+	{"internal/cache", map[string][2]string{
+		"github.com/redis/rueidis": {fac + "vredis", "rueidis"},
+	}, nil, nil},
 	{"internal/pool", map[string][2]string{
 		"github.com/IrineSistiana/bytespool": {fac + "vbytes", "bytespool"},
 		"github.com/IrineSistiana/gopool":    {fac + "vgopool", "gopool"},
-	}, nil},
+	}, nil, nil},
 }
 
 const routerShim = `package router
@@ -113,7 +122,13 @@ func main() {
 			src := filepath.Join(dir, name)
 			b, err := os.ReadFile(src)
 			must(err)
-			nb, changed, err := rewrite(src, b, r.swaps)
+			wantY := false
+			for _, y := range r.yields {
+				if y == "*" || y == name {
+					wantY = true
+				}
+			}
+			nb, changed, err := rewrite(src, b, r.swaps, wantY)
 			if err == nil && changed {
 				nb = orderRanges(nb, r.ordered[name])
 			}
@@ -197,9 +212,13 @@ func main() {
 
 // rewrite swaps import paths; the number of lines is unchanged and a //line
 // directive keeps positions pointing at the real file.
-func rewrite(path string, src []byte, swaps map[string][2]string) ([]byte, bool, error) {
+func rewrite(path string, src []byte, swaps map[string][2]string, yields bool) ([]byte, bool, error) {
 	fset := token.NewFileSet()
-	f, err := parser.ParseFile(fset, path, src, parser.ImportsOnly|parser.ParseComments)
+	mode := parser.ImportsOnly | parser.ParseComments
+	if yields {
+		mode = parser.ParseComments
+	}
+	f, err := parser.ParseFile(fset, path, src, mode)
 	if err != nil {
 		return nil, false, err
 	}
@@ -208,6 +227,45 @@ func rewrite(path string, src []byte, swaps map[string][2]string) ([]byte, bool,
 		text       string
 	}
 	var edits []edit
+	if yields {
+		// a scheduling point after the opening brace of every function body
+		// and loop body (same line: positions are unchanged)
+		n := 0
+		ast.Inspect(f, func(nd ast.Node) bool {
+			var body *ast.BlockStmt
+			switch x := nd.(type) {
+			case *ast.FuncDecl:
+				if x.Name.Name == "init" {
+					return false
+				}
+				body = x.Body
+			case *ast.FuncLit:
+				body = x.Body
+			case *ast.ForStmt:
+				body = x.Body
+			case *ast.RangeStmt:
+				body = x.Body
+			}
+			if body != nil {
+				off := fset.Position(body.Lbrace).Offset + 1
+				edits = append(edits, edit{off, off, " vsimy.Y();"})
+				n++
+			}
+			return true
+		})
+		if n > 0 {
+			imp := "vsimy " + strconv.Quote(fac+"vsync")
+			if len(f.Decls) > 0 {
+				if gd, ok := f.Decls[0].(*ast.GenDecl); ok && gd.Tok == token.IMPORT && gd.Lparen.IsValid() {
+					off := fset.Position(gd.Lparen).Offset + 1
+					edits = append(edits, edit{off, off, imp + ";"})
+				} else {
+					off := fset.Position(f.Name.End()).Offset
+					edits = append(edits, edit{off, off, "; import " + imp})
+				}
+			}
+		}
+	}
 	for _, im := range f.Imports {
 		p, _ := strconv.Unquote(im.Path.Value)
 		sw, ok := swaps[p]
